@@ -33,6 +33,10 @@ def swarm(prop, r, tier):
     cfg["zero_params"] = R.pick([0.0, 0.0, 0.08])
     cfg["sparse"] = R.chance(0.3)
     cfg["deprecated_iq"] = R.chance(0.25)
+    cfg["tables2d_general"] = R.pick([0.3, 0.6])
+    cfg["inf_limits"] = R.chance(0.15)
+    cfg["via_file"] = R.pick([0.0, 0.0, 0.25])
+    cfg["collapse_inputs"] = prop in ("C12", "C16") and R.chance(0.03)
     # nA..uA systems (everything scaled down): same laws, nanowatt losses
     cfg["micro"] = prop not in ("C03", "C18", "C17") and R.chance(0.07)
     # a random subset of kinds is disabled (swarm)
@@ -206,6 +210,9 @@ def drive(sess, rnd, cfg, record):
             ops = [{"op": "restart", "replace": True}]
         elif grp == "observe":
             ops = [make_observe(g, m, cfg)]
+            if m.mux() is not None and prop in ("C01", "C02", "C06", "C07", "C08", "C09") and R.chance(0.12):
+                # all live/dead patterns of the mux inputs, judged by this property's clauses
+                ops.append({"op": "mux_patterns"})
         for op in ops:
             if emit(op):
                 yield op
